@@ -264,7 +264,23 @@ def eliminate_definitions(constraints):
 def _var_signs(flat, side):
     """syntactic sign facts  v >= 0 / v <= 0  from top-level conjuncts that constrain a single variable."""
     sg = {}
-    for c in flat:
+    for c0 in flat:
+        hit = _SIGN_CACHE.get(c0.get_id())
+        if hit is None:
+            hit = (c0, _one_sign(c0, side))
+            _SIGN_CACHE[c0.get_id()] = hit
+        if hit[1] is not None:
+            sg.setdefault(hit[1][0], set()).update(hit[1][1])
+    return sg
+
+
+_SIGN_CACHE = {}
+
+
+def _one_sign(c, side):
+    """(variable name, {sign facts}) if the conjunct constrains a single variable against zero, else None"""
+    sg = {}
+    for c in [c]:
         if not z3.is_app(c):
             continue
         k = c.decl().kind()
@@ -301,7 +317,9 @@ def _var_signs(flat, side):
             cur.add("pos")
         if rel == "<":
             cur.add("neg")
-    return sg
+    for k, v in sg.items():
+        return (k, v)
+    return None
 
 
 def relaxation_unsat(constraints, timeout_ms=3000):
